@@ -66,18 +66,59 @@ def down(ctx):
     if cnt is None or adr is None or len(la.t) != 2:
         ob.refute("down-addr", "sub-command address is %s, expected latched_address*ratio + counter" % key(addr[0].value), addr[0].loc)
         return
-    # counter: cleared when a command is latched, +1 on accepted sub-command, exit at ratio-1
+    # Accept-site form (any number of sites at which a user command is taken, e.g. a back-to-back optimisation that takes the next command while
+    # the last sub-command is accepted): at EVERY site where port_from.cmd.ready is asserted, a fired handshake loads address, direction and
+    # counter = 0 (and that load is the last assignment to each register on that path); address / direction are loaded nowhere else; inside the
+    # splitting state a command is taken only together with the acceptance of the LAST sub-command; the counter is +1 per accepted sub-command.
     nv = [l for l in v.fsm_leaves(f) if l.kind == "nextvalue"]
-    clr = [l for l in nv if key(l.target) == cnt and is0(l.value)]
+    we = [l for l in v.fsm_leaves(f, st) if l.kind == "assign" and key(l.target) == "port_to.cmd.we"]
+    wereg = key(we[0].value) if len(we) == 1 and isinstance(we[0].value, (Obj, Sym)) else None
+    if wereg is None:
+        ob.refute("down-we", "the sub-commands' direction is not a register latched together with the address", we[0].loc if we else addr[0].loc)
+    lastcmp = None
+    accepts = [l for l in v.fsm_leaves(f) if l.kind == "assign" and key(l.target) == "port_from.cmd.ready" and not is0(l.value)]
+    if not ob.need(len(accepts) >= 1, "no site accepting the user command (port_from.cmd.ready) found in the converter FSM"):
+        return
+    want = {adr: "port_from.cmd.addr", cnt: "0"}
+    if wereg:
+        want[wereg] = "port_from.cmd.we"
+    for a in accepts:
+        fire = set(v.guard_keys(a, False)) | (set(v.value_conj_keys(a.value, False)) if not is1(a.value) else set()) | {"port_from.cmd.valid"}
+        loaded = {}
+        for l in v.fsm_leaves(f, a.state):          # source order: a later assignment on the same path wins
+            if l.kind == "nextvalue" and key(l.target) in want and set(v.guard_keys(l, False)) <= fire:
+                loaded[key(l.target)] = l
+        ob.instance("accept site in state %s" % a.state, {"fires under": sorted(fire), "loads": {k_: str(l_)[:90] for k_, l_ in loaded.items()}})
+        for reg, src in sorted(want.items()):
+            l = loaded.get(reg)
+            good = l is not None and ((src == "0" and is0(l.value)) or (src != "0" and key(l.value) == src))
+            if not good:
+                ob.refute("down-we" if reg == wereg else "down-counter", "state %s accepts a user command (under %s) but %s: the sub-commands issued for that command use "
+                          "a stale %s" % (a.state, sorted(fire), ("the last assignment to %s on that path is `%s`" % (reg, str(l)[:80])) if l is not None else
+                                          ("does not load %s from %s" % (reg, src)), "counter" if src == "0" else ("direction" if reg == wereg else "address")), (l or a).loc)
+        if a.state == st:
+            lc = None
+            for x, p_ in v.guard_lits(a, False):
+                if p_ and isinstance(x, Op) and x.op == "==" and cnt in (key(x.args[0]), key(x.args[1])):
+                    lc = [y for y in x.args if key(y) != cnt][0]
+            if "port_to.cmd.ready" not in fire or lc is None or not lin_eq(lc, Op("-", (ratio_t, Const(1)))):
+                ob.refute("down-accept-early", "state %s takes the next user command under %s, i.e. not only while the LAST sub-command of the current one is being accepted: "
+                          "the remaining sub-commands are issued with the new address" % (st, sorted(fire)), a.loc)
+    for l in nv:
+        if key(l.target) in (adr, wereg):
+            g = set(v.guard_keys(l, False))
+            cover = [a for a in accepts if a.state == l.state and (set(v.guard_keys(a, False)) | (set(v.value_conj_keys(a.value, False)) if not is1(a.value) else set())) <= g]
+            if "port_from.cmd.valid" not in g or not cover:
+                ob.refute("down-latch-without-accept", "`%s` reloads the latched %s under %s, where no user command is being accepted (valid & ready): the split in progress "
+                          "continues with another command's %s" % (str(l)[:90], "address" if key(l.target) == adr else "direction", sorted(g),
+                                                                     "address" if key(l.target) == adr else "direction"), l.loc)
     inc = [l for l in nv if key(l.target) == cnt and not is0(l.value)]
-    lat = [l for l in nv if key(l.target) == adr]
-    okc = len(clr) == 1 and len(inc) == 1 and len(lat) == 1 and lin_eq(inc[0].value, Op("+", (inc[0].target, Const(1)))) \
-        and "port_to.cmd.ready" in v.guard_keys(inc[0], False) and inc[0].state == st \
-        and key(lat[0].value) == "port_from.cmd.addr" and v.guard_keys(lat[0], False) == v.guard_keys(clr[0], False) and "port_from.cmd.valid" in v.guard_keys(lat[0], False)
-    ob.instance("counter", {"clear": [str(x) for x in clr], "inc": [str(x) for x in inc], "latch": [str(x) for x in lat]})
+    ob.instance("counter", {"inc": [str(x) for x in inc]})
+    okc = bool(inc) and all(lin_eq(l.value, Op("+", (l.target, Const(1)))) and l.state == st and "port_to.cmd.ready" in v.guard_keys(l, False) for l in inc) \
+        and any(set(v.guard_keys(l, False)) == {"port_to.cmd.ready"} for l in inc)
     if not okc:
-        ob.refute("down-counter", "sub-command counter does not follow clear-on-latch / +1-per-accepted-sub-command: %s / %s" %
-                  ([str(x) for x in clr], [str(x) for x in inc]), (inc or clr or addr)[0].loc)
+        ob.refute("down-counter", "sub-command counter is not +1 per accepted sub-command (in the splitting state, under port_to.cmd.ready alone): %s" %
+                  [str(x) for x in inc], (inc or addr)[0].loc)
     outs = [l for l in v.fsm_leaves(f, st) if l.kind == "next"]
     last = None
     for l in outs:
@@ -90,10 +131,6 @@ def down(ctx):
     if last is None or not lin_eq(last, Op("-", (ratio_t, Const(1)))):
         ob.refute("down-count", "the splitting state is left when the counter equals %s, expected ratio-1 (exactly `ratio` sub-commands)" %
                   (key(last) if last is not None else None), outs[0].loc if outs else None)
-    we = [l for l in v.fsm_leaves(f, st) if l.kind == "assign" and key(l.target) == "port_to.cmd.we"]
-    wel = [l for l in nv if we and key(l.target) == key(we[0].value)]
-    if not (len(we) == 1 and len(wel) == 1 and key(wel[0].value) == "port_from.cmd.we" and v.guard_keys(wel[0], False) == v.guard_keys(lat[0], False)):
-        ob.refute("down-we", "the sub-commands' direction is not the direction latched together with the address", we[0].loc if we else None)
     # data paths
     conv = [o for o in v.d.objs if o.cls == "StrideConverter"]
     pl = pipelines(v)
